@@ -6,8 +6,12 @@ SPEC (from the statement): a registry error must arrive as the same registry var
 retryability; an unknown (arbitrary / canceled) error must arrive non-retryable; `context.DeadlineExceeded` — which
 the origin itself classifies as retryable (it is in `retryableErrs`, the wire code is failed_precondition) and which
 nodes do return to remote callers (timeouts of forwarded operations) — must keep its retryability.
-`%w`-wrapped registry errors and fresh errors carrying a registry message are outside the reachable domain
-(no handler returns them): compared with the model only.
+A TEXT-PRESERVING wrapper around a known sentinel e (kind `same:<shape>`: `fmt.Errorf("%w", e)`, `errors.Join(e)`, a
+wrapper type whose `Error()` is the inner one's, nested as `<shape>` says) IS that error for the origin
+(`errors.Is`) and is indistinguishable from it on the wire, so the statement applies to it as it stands: the caller
+must see e, and must classify it retryable exactly when the origin's own `ErrorIsRetryable` did.
+`%w`-wrapped registry errors whose text is CHANGED and fresh errors carrying a registry message are outside the
+reachable domain (no handler returns them): compared with the model only.
 -/
 namespace Specter.C14
 open Specter.Util
@@ -17,7 +21,25 @@ def entryOf (name : String) : Option Entry := known.find? (fun e => e.name == na
 /-- an external sentinel: the known entry if the source mentions it, else just an error with that message -/
 def extOf (name msg : String) : GoErr := match entryOf name with | some e => .reg e | none => .opaque msg
 
+/-- the wrapper shape of a `same:<shape>` kind: one letter per nesting level (f = fmt.Errorf("%w"), j = errors.Join,
+t = text-preserving wrapper type); all of them are `wrap <inner text> inner` for the model -/
+def sameShape (kind : String) : Option Nat :=
+  if kind.startsWith "same:" then
+    let sh := (kind.drop 5).toString.toList
+    if sh ≠ [] ∧ sh.all (fun c => c == 'f' || c == 'j' || c == 't') then some sh.length else none
+  else none
+
+def nest (x : GoErr) : Nat → GoErr
+  | 0 => x
+  | n + 1 => .wrap x.msg (nest x n)
+
 def originOf (kind arg : String) : Option GoErr :=
+  match sameShape kind with
+  | some n =>
+    match entryOf arg with
+    | some e => some (sameText e n)
+    | none => if arg = "context.DeadlineExceeded" then some (nest (.opaque "context deadline exceeded") n) else none
+  | none =>
   match kind with
   | "reg" => (entryOf arg).map .reg
   | "wrapped" => (entryOf arg).map (fun e => .wrap ("storing KV to successor: " ++ e.msg) (.reg e))
@@ -61,6 +83,13 @@ def step (_ : Unit) (toks : List String) (rhs : String) : Unit × Verdict :=
       let id := field rhs "id"
       let retry := field rhs "retry"
       let sp : Option String :=
+        if (sameShape kind).isSome then
+          if id ≠ arg then
+            some s!"{arg} inside a text-preserving wrapper ({kind}) is not recognised by the caller as the same error (caller sees {id})"
+          else if retry ≠ boolStr oretry then
+            some s!"{arg} inside a text-preserving wrapper ({kind}): retryable at the origin = {oretry}, at the caller = {retry}"
+          else none
+        else
         match kind with
         | "reg" =>
           if id ≠ arg then some s!"{arg} is not recognised by the caller as the same error (caller sees {id})"
